@@ -1,7 +1,9 @@
 from abc import ABCMeta
 from pickle import _Pickler as StockPickler
 from typing import Any, Generator, Iterable  # attr-defined: ignore
+import sys
 from dill import register
+from dill._dill import save_type
 from geneticengine.solutions.individual import Individual
 from geneticengine.problems import Fitness, Problem
 from geneticengine.evaluation.api import Evaluator
@@ -10,6 +12,25 @@ from geneticengine.evaluation.api import Evaluator
 @register(ABCMeta)
 def save_abc(pickler, obj):
     StockPickler.save_type(pickler, obj) # pyright: ignore
+
+
+def importable(cls: type) -> bool:
+    """Whether a worker can find this very class again by its module and qualified name."""
+    found: Any = sys.modules.get(cls.__module__)
+    for part in cls.__qualname__.split("."):
+        found = getattr(found, part, None)
+    return found is cls
+
+
+@register(type)
+def save_class(pickler, obj):
+    # dill copies classes defined in the main script by VALUE: the fitness function and the individuals travel as
+    # separate pickles, so a worker received two different copies of every grammar class and isinstance / match / ==
+    # on the nodes were False there. A class that can be found again by name goes by reference, like the ABC ones.
+    if importable(obj):
+        StockPickler.save_type(pickler, obj) # pyright: ignore
+    else:
+        save_type(pickler, obj)
 
 
 class ParallelEvaluator(Evaluator):
@@ -30,8 +51,15 @@ class ParallelEvaluator(Evaluator):
                 # mapped here, once: a worker that maps its own copy may derive another program than this individual
                 # has afterwards (dynamic SGE draws the genes it lacks while mapping)
                 ind.get_phenotype()
-            with Pool(len(indivs)) as pool:
+            pool = Pool(len(indivs))
+            try:
                 fitnesses = pool.map(mapper, indivs)
+            finally:
+                # pathos keeps its pools alive and hands them out again: workers forked for an earlier batch would answer
+                # with the module state (and the classes) of that time
+                pool.close()
+                pool.join()
+                pool.clear()
             for i, f in zip(indivs, fitnesses):
                 i.set_fitness(problem, f)
                 self.register_evaluation()
